@@ -6,7 +6,7 @@
   B1            the same run prints every input sequence; each is executed on the real code as the identity
                 and as scaled / offset exact copies
   B2            vh dt-random     - seeded sets (uniform, clustered, thin bands, flat arcs, diagonals) of up to
-                32 (quick) / 90 (thorough) points, identity or scaled by 2^k (|k| <= 40) / offset by j*2^m
+                32 (quick) / 90 (thorough) points, identity or scaled by mul*2^k (|k| <= 40, mul odd) / offset by j*2^m
   executor      vh dt-exec       - real triangulation.BowyerWatson; mesh mapped back to the lattice
   judge         TraceDelaunay.tla (Delaunay!Judge: exact integer Orient / InCircle determinants)
 """
@@ -79,17 +79,30 @@ def design_checks(ctx):
     return [json.loads(x) for x in seqs]
 
 
-TRANSFORMS = [
-    ("identity", 0, [0, 0], 0),
-    ("scaled", -12, [0, 0], 0),
-    ("scaled", 20, [0, 0], 0),
-    ("offset", 0, [977, -431], 30),
-    ("scaled-offset", -9, [-138, 897], 24),
-]
+# Exact copies used for the enumerated sequences: (name, k, j, m, mul) means x = (lat + j*2^m) * mul * 2^k.
+# Scales mul*2^k sweep 2^-13 .. 2^5 with about 1/16 relative spacing (constructions with an absolute constant
+# change behaviour in a narrow window of scales: the pinned tree's super-triangle failed for sets between 0.100
+# and 0.108 high), a few extreme scales, and offsets by large multiples of the spacing.
+def _transforms():
+    out = [("identity", 0, [0, 0], 0, 1)]
+    for k in range(-13, 5):
+        for mul in (1, 9, 5, 11, 3, 13, 7, 15, 17, 19, 21, 23, 25, 27, 29, 31):
+            if not (k == 0 and mul == 1):
+                out.append(("scaled", k - (mul.bit_length() - 1), [0, 0], 0, mul))
+    for k in (-40, -30, -20, 12, 20, 30, 40):
+        out.append(("scaled", k, [0, 0], 0, 1))
+    for j, m in (([977, -431], 30), ([-138, 897], 24), ([613, 22], 12), ([-1000, 1000], 40), ([3, -5], 0)):
+        out.append(("offset", 0, j, m, 1))
+        out.append(("scaled-offset", -5, j, m, 3))
+        out.append(("scaled-offset", 7, j, min(m, 36), 5))
+    return out
+
+
+TRANSFORMS = _transforms()
 
 
 def transform_of(c):
-    if c["k"] == 0 and c["j"] == [0, 0]:
+    if c["k"] == 0 and c["j"] == [0, 0] and c.get("mul", 1) == 1:
         return "identity"
     if c["j"] == [0, 0]:
         return "scaled"
@@ -137,19 +150,22 @@ def report(ctx, vh, cases, findings, confirm=True):
     if not picked:
         return
     if confirm:
+        # the algorithm iterates over Go maps: a rejection may depend on the iteration order, so a case is
+        # given several re-executions to show the same rejection again
         again = []
         for n, (sig, f, c) in enumerate(picked):
-            cc = dict(c)
-            cc["id"] = n
-            again.append(cc)
+            for rep in range(6):
+                cc = dict(c)
+                cc["id"] = n
+                again.append(cc)
         raw = execute(ctx, vh, again, "confirm")
         got = {(g["case"], g["pred"]) for g in judge(ctx, raw, "confirm")[0]}
         for n, (sig, f, c) in enumerate(picked):
             if (n, f["pred"]) not in got:
-                raise core.Infra("rejection %s of case %d does not reproduce on re-execution" % (sig, f["case"]))
+                raise core.Infra("rejection %s of case %d does not reproduce in 6 re-executions" % (sig, f["case"]))
     for sig, f, c in picked:
-        what = "%s rejected the triangulation of %d points (%s, k=%d, offset %s*2^%d, tag %s): %d triangles returned" % (
-            f["pred"], f["n"], transform_of(c), c["k"], c["j"], c["m"], c.get("tag"), f["tris"])
+        what = "%s rejected the triangulation of %d points (%s: scale %d*2^%d, offset %s*2^%d, tag %s): %d triangles returned" % (
+            f["pred"], f["n"], transform_of(c), c.get("mul", 1), c["k"], c["j"], c["m"], c.get("tag"), f["tris"])
         ctx.violation(sig, what, {"family": "delaunay", "pred": f["pred"], "case": c})
 
 
@@ -219,15 +235,16 @@ def run(ctx):
     seqs = design_checks(ctx)
     ctx.extra["b1_sequences"] = len(seqs)
     cases = []
+    rng = random.Random(1000 + ctx.seed)   # which copy a sequence gets (an index formula aliases with the sampling)
     for n, pts in enumerate(seqs):
         # quick: every 3-point sequence and a third of the longer ones (which third depends on the seed, so seeds
         # 1..3 cover them all); thorough: everything. Each as the identity, every second one also as an exact
         # scaled / offset copy (the four transforms in turn).
         if quick and len(pts) > 3 and n % 3 != ctx.seed % 3:
             continue
-        trs = [TRANSFORMS[0]] + ([TRANSFORMS[1 + (n // 2) % 4]] if n % 2 == 0 or not quick else [])
-        for name, k, j, m in trs:
-            cases.append({"tag": "bfs-" + name, "pts": pts, "k": k, "j": j, "m": m})
+        trs = [TRANSFORMS[0]] + ([TRANSFORMS[rng.randrange(1, len(TRANSFORMS))]] if n % 2 == 0 or not quick else [])
+        for name, k, j, m, mul in trs:
+            cases.append({"tag": "bfs-" + name, "pts": pts, "k": k, "j": j, "m": m, "mul": mul})
     nb1 = len(cases)
     d = ctx.scratch("rnd")
     plans = [(900, 32, ctx.seed)] if quick else [(6000, 40, ctx.seed * 100), (600, 90, ctx.seed * 100 + 1)]
@@ -281,9 +298,11 @@ def run(ctx):
                 "transform); non-trivial if the result has >= 2 triangles; empty results are inside the statement and "
                 "only counted" % (4 if quick else 5, 32 if quick else 90))
     ctx.sample(cases[0])
-    ctx.sample({"tag": cases[-1].get("tag"), "n": len(cases[-1]["pts"]), "k": cases[-1]["k"], "j": cases[-1]["j"], "m": cases[-1]["m"]})
+    ctx.sample({"tag": cases[-1].get("tag"), "n": len(cases[-1]["pts"]), "k": cases[-1]["k"], "mul": cases[-1].get("mul", 1),
+                "j": cases[-1]["j"], "m": cases[-1]["m"]})
+    ctx.extra["transforms_swept"] = len(TRANSFORMS)
     ctx.assumptions += [
-        "inputs are exact affine images (x = (lat + j*2^m) * 2^k) of lattice points 0..100; the harness verifies that every "
+        "inputs are exact affine images (x = (lat + j*2^m) * mul * 2^k, mul odd <= 63) of lattice points 0..100; the harness verifies that every "
         "coordinate is exactly representable and maps results back exactly, so TLC judges the true input on integers",
         "hull coverage is not part of the statement: empty or partial triangulations are accepted and counted",
         "no verdict outside general position (evaluated by TLC: distinct, no three collinear, no four cocircular)",
